@@ -29,7 +29,7 @@ FLOORS = {"quick": {"convert": 50000, "in_timezone": 50000, "astimezone": 20000,
                        "ts_inverse": 50000}}
 REQUIRED_HOOKS = ["Timezone.convert", "FixedTimezone.convert", "DateTime.in_timezone", "DateTime.astimezone",
                   "DateTime.instance", "pendulum.from_timestamp", "DateTime.int_timestamp"]
-TECHNIQUE = "runtime contracts on every conversion entry point with an instant-preservation + tz-database rendering oracle; log checkers for path independence and timestamp inverse"
+TECHNIQUE = "runtime contracts on every conversion entry point with an instant-preservation + tz-database rendering oracle; log checkers for path independence and timestamp inverse; workloads request fixed offsets also as int/float hours"
 LEVEL_TEXT = ("every observed aware conversion (convert, in_timezone, astimezone, instance, from_timestamp, fromtimestamp) is "
               "judged against the input's own instant and an independently parsed tz database; enumerates every transition "
               "of every zone as target with sources of five tzinfo kinds, both backends; held on what was observed")
